@@ -1,4 +1,5 @@
 import JobShopProofs.FeatureLemmas
+import JobShopProofs.CpLemmas
 /-!
 # C11 — incremental features equal a from-scratch recomputation
 
@@ -70,6 +71,158 @@ theorem C11_duration_jobs (c : Cfg) (o0 : FObs) (hw0 : o0.WF) (hft : FT.jobs ∈
       obtain ⟨h1, h2⟩ := durationUpdate_jobs c hc.wf hsp o hw (by rw [hfts]; exact hft) hspec
       exact C11_duration_jobs c o0 hw0 hft h s' _ hc' hv h2
         (by unfold durationUpdate; rw [assignCols_fts]; exact hfts) h1
+
+/-! ## RemainingOperationsObserver, job level -/
+
+/-- specification: the number of unscheduled operations of each job -/
+def remJobsSpec (I : Instance) (s : State) : List Int :=
+  (List.range I.length).map fun j => (((unscheduledPure I s).filter fun r => r.1 == j).length : Int)
+
+theorem remJobsSpec_dispatch {I : Instance} {s s' : State} {j p m : Nat} {op : Op} (hwf : WF I s)
+    (hd : DispSpec I s s' j p m op) :
+    remJobsSpec I s' = addAt (remJobsSpec I s) j (-1) := by
+  unfold remJobsSpec addAt
+  apply List.ext_getElem
+  · simp
+  · intro k h1 h2
+    simp only [List.length_map, List.length_range] at h1
+    simp only [List.getElem_map, List.getElem_range, List.getElem_modify, filter_unscheduled_job, h1, ↓reduceIte]
+    obtain ⟨hother, hsame⟩ := unschedJob_dispatch hwf hd k
+    by_cases hk : j = k
+    · subst hk
+      simp only [↓reduceIte]
+      rw [(unschedJob_dispatch hwf hd j).2]
+      simp only [List.length_cons]
+      omega
+    · simp only [hk, ↓reduceIte]
+      rw [hother (fun h => hk h.symm)]
+
+/-- one `RemainingOperationsObserver.update` across an accepted dispatch keeps the job column equal to the
+specification -/
+theorem remainingUpdate_jobs (I : Instance) {s s' : State} {j p m : Nat} {op : Op} (hwf : WF I s)
+    (hd : DispSpec I s s' j p m op) (o : FObs) (hw : o.WF) (hft : FT.jobs ∈ o.fts)
+    (hspec : o.col .jobs = remJobsSpec I s) :
+    (remainingUpdate ⟨j, p, m, startTime s j m, op.dur⟩ o).col .jobs = remJobsSpec I s' ∧
+    (remainingUpdate ⟨j, p, m, startTime s j m, op.dur⟩ o).WF ∧
+    (remainingUpdate ⟨j, p, m, startTime s j m, op.dur⟩ o).fts = o.fts := by
+  unfold remainingUpdate
+  have hhas : o.has .jobs = true := by simpa [FObs.has] using hft
+  simp only [hhas, ↓reduceIte]
+  have h1 : (o.setCol .jobs (addAt (o.col .jobs) j (-1))).col .jobs = addAt (o.col .jobs) j (-1) :=
+    col_setCol_same o .jobs _ (hw.has_col hft)
+  have hw1 := hw.setCol .jobs (addAt (o.col .jobs) j (-1))
+  split
+  · refine ⟨?_, hw1.setCol _ _, rfl⟩
+    rw [col_setCol_other _ _ _ _ (by decide), h1, hspec, remJobsSpec_dispatch hwf hd]
+  · refine ⟨?_, hw1, rfl⟩
+    rw [h1, hspec, remJobsSpec_dispatch hwf hd]
+
+/-- **C11 (remaining operations per job, every history).** Along every sequence of accepted dispatches starting in a
+state where it was initialised, `RemainingOperationsObserver`'s job feature is the number of unscheduled operations
+of each job. -/
+theorem C11_remaining_jobs (c : Cfg) (fts0 : List FT) (hft : FT.jobs ∈ fts0) :
+    ∀ (h : List (Nat × Nat × Nat)) (s : State) (o : FObs), CInv c.I s → Valid c.I → o.WF → o.fts = fts0 →
+      o.col .jobs = remJobsSpec c.I s →
+      let r := h.foldl (fun (so : State × FObs) (r : Nat × Nat × Nat) =>
+        match dispatch c.I so.1 r.1 r.2.1 r.2.2, getOp c.I r.1 r.2.1 with
+        | .ok s', some op => (s', remainingUpdate (newEntry so.1 r.1 r.2.1 r.2.2 op) so.2)
+        | _, _ => so) (s, o)
+      r.2.col .jobs = remJobsSpec c.I r.1
+  | [], s, o, _, _, _, _, hspec => hspec
+  | (j, p, m) :: h, s, o, hc, hv, hw, hfts, hspec => by
+    simp only [List.foldl_cons]
+    cases hd : dispatch c.I s j p m with
+    | error e => simp only; exact C11_remaining_jobs c fts0 hft h s o hc hv hw hfts hspec
+    | ok s' =>
+      obtain ⟨op, hsp⟩ := dispatch_ok hd
+      simp only [hsp.hop]
+      have hc' := cinv_dispatch (hv j p op hsp.hop).2.2 hc hsp
+      obtain ⟨h1, h2, h3⟩ := remainingUpdate_jobs c.I hc.wf hsp o hw (by rw [hfts]; exact hft) hspec
+      exact C11_remaining_jobs c fts0 hft h s' _ hc' hv h2 (h3.trans hfts) h1
+
+/-! ## IsScheduledObserver, operation level -/
+
+/-- specification: 1 for scheduled operations, 0 otherwise -/
+def schedOpsSpec (I : Instance) (s : State) : List Int :=
+  (allOps I).map fun r => if isScheduled s r then 1 else 0
+
+theorem schedOpsSpec_dispatch {I : Instance} {s s' : State} {j p m : Nat} {op : Op} (hwf : WF I s)
+    (hd : DispSpec I s s' j p m op) :
+    schedOpsSpec I s' = setAt (schedOpsSpec I s) (opId I (j, p)) 1 := by
+  obtain ⟨_, hji, _⟩ := dispSpec_vectors hwf hd
+  have hmem : (j, p) ∈ allOps I := mem_allOps_of_getOp hd.hop
+  unfold schedOpsSpec setAt
+  apply List.ext_getElem
+  · simp
+  · intro k h1 h2
+    simp only [List.length_map] at h1
+    simp only [List.getElem_map, List.getElem_set]
+    have hk : (allOps I)[k] ∈ allOps I := List.getElem_mem h1
+    by_cases hkk : opId I (j, p) = k
+    · subst hkk
+      have := allOps_getElem_opId hmem
+      rw [List.getElem?_eq_getElem h1] at this
+      have heq : (allOps I)[opId I (j, p)] = (j, p) := Option.some.inj this
+      simp only [↓reduceIte, heq, isScheduled, hji, decide_eq_true_eq]
+      simp
+    · simp only [hkk, ↓reduceIte]
+      have hne : (allOps I)[k] ≠ (j, p) := by
+        intro h
+        apply hkk
+        have a := allOps_getElem_opId hmem
+        have b : (allOps I)[k]? = some (j, p) := by rw [List.getElem?_eq_getElem h1, h]
+        -- both indices hold (j, p) in a duplicate-free list
+        have hk' : (allOps I)[k] ∈ allOps I := List.getElem_mem h1
+        have c := allOps_getElem_opId hk'
+        rw [h] at c
+        -- `k` and `opId (j,p)` both index `(j, p)`; ids are positions (C14_ids)
+        have hids := C14_ids I
+        have e1 : ((allOps I).map (opId I))[k]? = some (opId I (j, p)) := by
+          simp [List.getElem?_eq_getElem h1, h]
+        rw [hids, List.getElem?_range (by rwa [length_allOps] at h1)] at e1
+        exact (Option.some.inj e1).symm
+      generalize (allOps I)[k] = r at hne
+      simp only [isScheduled, hji]
+      by_cases hr : r.1 = j
+      · have hp : r.2 ≠ p := fun h => hne (Prod.ext hr h)
+        simp only [hr, ↓reduceIte, hd.hidx]
+        by_cases h1 : r.2 < p
+        · have : r.2 < p + 1 := by omega
+          simp [h1, this]
+        · have : ¬ r.2 < p + 1 := by omega
+          simp [h1, this]
+      · simp only [hr, ↓reduceIte]
+        rfl
+
+/-- **C11 (scheduled flag, every history).** Along every sequence of accepted dispatches starting in a state where
+it agrees with the schedule, `IsScheduledObserver`'s operation feature is 1 exactly for the scheduled operations. -/
+theorem C11_isScheduled_ops (c : Cfg) (fts0 : List FT) (hft : FT.operations ∈ fts0) :
+    ∀ (h : List (Nat × Nat × Nat)) (s : State) (o : FObs), CInv c.I s → Valid c.I → o.WF → o.fts = fts0 →
+      o.col .operations = schedOpsSpec c.I s →
+      let r := h.foldl (fun (so : State × FObs) (r : Nat × Nat × Nat) =>
+        match dispatch c.I so.1 r.1 r.2.1 r.2.2, getOp c.I r.1 r.2.1 with
+        | .ok s', some op => (s', isScheduledUpdate c s' (newEntry so.1 r.1 r.2.1 r.2.2 op) so.2)
+        | _, _ => so) (s, o)
+      r.2.col .operations = schedOpsSpec c.I r.1
+  | [], s, o, _, _, _, _, hspec => hspec
+  | (j, p, m) :: h, s, o, hc, hv, hw, hfts, hspec => by
+    simp only [List.foldl_cons]
+    cases hd : dispatch c.I s j p m with
+    | error e => simp only; exact C11_isScheduled_ops c fts0 hft h s o hc hv hw hfts hspec
+    | ok s' =>
+      obtain ⟨op, hsp⟩ := dispatch_ok hd
+      simp only [hsp.hop]
+      have hc' := cinv_dispatch (hv j p op hsp.hop).2.2 hc hsp
+      obtain ⟨h1, h2⟩ := assignCols_col o (isScheduledCol c s' (newEntry s j p m op)) hw
+        (by
+          intro o ft ft' cc hne
+          cases ft <;> simp only [isScheduledCol, col_setCol_other _ _ _ _ hne]) .operations (by rw [hfts]; exact hft)
+      refine C11_isScheduled_ops c fts0 hft h s' _ hc' hv h2
+        (by unfold isScheduledUpdate; rw [assignCols_fts]; exact hfts) ?_
+      unfold isScheduledUpdate
+      rw [h1]
+      simp only [isScheduledCol, newEntry]
+      rw [hspec, schedOpsSpec_dispatch hc.wf hsp]
 
 /-- **C11 (constructible).** Every feature observer can be constructed in every state of every instance, for
 every list of supported feature types (and the default `None`). -/
